@@ -41,20 +41,29 @@ def _hwm(out):
 
 
 def run(ctx):
-    # 1. the contract model satisfies the property on every small input
-    #    (coverage statistics slow TLC down several times: the vacuity guard runs on the small
-    #    configuration that also allows re-evaluation, the larger one runs without statistics)
-    r = ctx.tlc(SPEC, "Retry", cfg="MC_Reeval", coverage=True, label="MC_Reeval", timeout=900)
-    ctx.require_coverage(r, ACTIONS, "MC_Reeval")
-    r = ctx.tlc(SPEC, "Retry", cfg=ctx.pick("MC_Quick", "MC_Thorough"), label="MC_Contract", timeout=ctx.pick(900, 3000))
-    if r.distinct < 10000:
-        ctx.broken("MC_Contract explored only %d states" % r.distinct)
-    # 2. the hazard variant (third operator of a triplet read from the wrong index) violates it
-    hz = ctx.tlc(SPEC, "Retry", cfg="MC_Hazard", label="MC_Hazard", expect=("violation",), timeout=900)
-    ctx.extra["hazard_violated_invariant"] = hz.violated
-    # 3. every input of the specification, with the specification's verdict about it
-    g = ctx.tlc(SPEC, "Gen_Retry", cfg=ctx.pick("Gen_Quick", "Gen_Thorough"), workers=1, label="Gen", dump_trace=False,
-                timeout=ctx.pick(600, 3000))
+    # The four model runs are independent: run them side by side (JVM start-up dominates the small ones).
+    #  1. the contract model satisfies the property on every small input (coverage statistics slow TLC down
+    #     several times: the vacuity guard runs on the small configuration that also allows re-evaluation,
+    #     the larger one runs without statistics)
+    #  2. the hazard variant (third operator of a triplet read from the wrong index) violates it
+    #  3. every input of the specification, with the specification's verdict about it
+    from concurrent.futures import ThreadPoolExecutor
+    with ThreadPoolExecutor(4) as ex:
+        f_re = ex.submit(ctx.tlc, SPEC, "Retry", cfg="MC_Reeval", coverage=True, label="MC_Reeval", timeout=900, workers=2)
+        f_mc = ex.submit(ctx.tlc, SPEC, "Retry", cfg=ctx.pick("MC_Quick", "MC_Thorough"), label="MC_Contract",
+                         timeout=ctx.pick(900, 3000), workers=ctx.pick(4, 8))
+        f_hz = ex.submit(ctx.tlc, SPEC, "Retry", cfg="MC_Hazard", label="MC_Hazard", expect=("violation",), timeout=900,
+                         workers=2)
+        f_g = ex.submit(ctx.tlc, SPEC, "Gen_Retry", cfg=ctx.pick("Gen_Quick", "Gen_Thorough"), workers=1, label="Gen",
+                        dump_trace=False, timeout=ctx.pick(900, 3000))
+        r = f_re.result()
+        ctx.require_coverage(r, ACTIONS, "MC_Reeval")
+        r = f_mc.result()
+        if r.distinct < 10000:
+            ctx.broken("MC_Contract explored only %d states" % r.distinct)
+        hz = f_hz.result()
+        ctx.extra["hazard_violated_invariant"] = hz.violated
+        g = f_g.result()
     cases = ctx.read_emitted(g, "cases.ndjson")
     if len(cases) < 1000:
         ctx.broken("case generation produced only %d inputs" % len(cases))
@@ -65,16 +74,20 @@ def run(ctx):
     ctx.note("specification inputs: %d (%d with eligible exclusions, %d on which the hazard variant differs)" % (
         len(cases), len(uneven), len(hazard)))
     rnd = random.Random(ctx.seed)
-    if ctx.thorough:
-        n_plain, n_hazard = 6000, 1500
-    else:
-        n_plain, n_hazard = 200, 60
     plain = [c for c in cases if not c["hazard"]]
-    sel = rnd.sample(plain, min(n_plain, len(plain))) + rnd.sample(hazard, min(n_hazard, len(hazard)))
+    if ctx.thorough:
+        # every input is run and compared with the specification's sets; a sample is also trace-validated
+        sel = list(cases)
+        traced = set(id(c) for c in rnd.sample(plain, min(1200, len(plain))) + rnd.sample(hazard, min(400, len(hazard))))
+    else:
+        sel = rnd.sample(plain, min(200, len(plain))) + rnd.sample(hazard, min(60, len(hazard)))
+        traced = set(id(c) for c in sel)
+    for c in sel:
+        c["trace"] = id(c) in traced
     go = ctx.gotest(PKG, "^TestVerif_C09_Retry$", ["c09_test.go"], inputs={"cases.ndjson": sel}, label="retry",
                     timeout=ctx.pick(600, 3000),
                     env={"VERIF_ASSIGNMENTS": ctx.pick(2, 3), "VERIF_HAZARD_ASSIGNMENTS": ctx.pick(4, 6),
-                         "VERIF_SEEDS": ctx.pick(1, 2), "VERIF_SIGNING_RETRIES": ctx.pick(2, 3)})
+                         "VERIF_SEEDS": 1, "VERIF_SIGNING_RETRIES": ctx.pick(2, 3)})
     ctx.absorb(go, require_evals=200)
     # 4. the recorded call history must be a behaviour of the specification
     tp = ctx.trace_path(go, "trace_retry")
@@ -106,7 +119,7 @@ def run(ctx):
                       {"block": lines[s:e][:80], "rejected_line": lines[hw - 1]})
         rejected += 1
         lines = lines[:s] + lines[e:]
-        if rejected >= 8 or not lines:
+        if rejected >= 3 or not lines:
             ctx.note("stopped re-validating after %d rejected blocks" % rejected)
             break
     ctx.traces_validated += max(0, nblocks - rejected)
